@@ -75,7 +75,9 @@ def finish(a):
     return d
 
 
-HBASE = P.case(state="vec2", pg="scalar", pc="control+", horizon="Tparam", cons=[P.con("bc0")], obj=["mayer_tf", "integral"], method="MS", N=2)
+# (a time-dependent guess of the state is part of the base: with the horizon a parameter, its node times follow the value)
+HBASE = P.case(state="vec2", pg="scalar", pc="control+", horizon="Tparam", cons=[P.con("bc0")], obj=["mayer_tf", "integral"], method="MS", N=2,
+               init=[["x", "expr", "lin"]])
 HALPHA = [
     ["set_value", "pg", "a"], ["set_value", "pg", "b"], ["set_value", "pc", "A"], ["set_value", "pc", "B"],
     ["query", "sample"], ["solve"], ["subject_to", P.con("pc_le")], ["method", "DC2"],
